@@ -106,6 +106,12 @@ func c18(p *core.Prog, res *core.Result) {
 	res.Rule("B4", "embedded BulkAdd touches the timestamp", 1)
 	res.Rule("B5", "bulk write filter enforces per element", 1)
 	res.Rule("B6", "loader goroutines capture no variable that is reassigned", 2)
+	res.Rule("B7", "the batcher does not reuse a batch slice it has handed to a writer goroutine", 2)
+	if sb := p.Func("util", "StreamBatch"); sb != nil {
+		sliceHandOver(p, res, sb, "B7")
+	} else {
+		res.Fail("util.StreamBatch not found")
+	}
 
 	bulk := p.Func("server", "GripServer.BulkAdd")
 	if bulk == nil {
